@@ -15,7 +15,7 @@ CHECKS = {
         text="Every panic-capable MIR construct (Assert terminators, catalogued partial std calls, explicit panics) reachable in the "
              "resolved call graph from Packet::parse and the header_buffer peeks is discharged for all inputs by a numeric abstract "
              "interpretation; every reachable loop has a progress measure (finite iterator, bounded strictly increasing cursor, or "
-             "lexicographic pair); every allocation request is bounded by a constant <= 65535. This is a for-all-inputs argument over "
+             "lexicographic pair); every allocation request is bounded by a constant <= 1024 elements or by the length of the input. This is a for-all-inputs argument over "
              "~340 program points, which is what the quantifier needs and sampling cannot give.",
         note=TB + " Decides: never panics, always terminates, allocation requests bounded. Does not measure the constants of the "
              "time/heap bound. Two audited sites are re-validated structurally on every run (tables/audited_sites.tsv).",
@@ -34,8 +34,9 @@ CHECKS = {
         technique="cross-crate call-graph reachability + MIR abstract interpretation of panic sites + lock-region rule",
         text="From the receive loops and packet handlers of the responder, the service-discovery listener and the one-shot "
              "resolver (sync and async back-ends, coroutine state machines included) no undischarged panic site is reachable, "
-             "across the crate boundary into simple_dns; LockResult::unwrap sites are discharged because no panic site is "
-             "reachable from code that runs under a guard. Decides the panic-freedom clause for every datagram and store state.",
+             "across the crate boundary into simple_dns; no Display/Debug impl run by to_string() on received names constructs "
+             "fmt::Error; LockResult::unwrap sites are discharged because no panic site is reachable from code that runs under a "
+             "guard. Decides the panic-freedom clause for every datagram and store state.",
         note=TB + " Does not decide 'any reply produced is a parseable DNS message' (C02/C03). Sites excluded by a stated "
              "precondition are listed in tables/assumed_preconditions.tsv and in the evidence; sites inside tokio::select! "
              "scaffolding are treated as external code; three async buf[..count] sites are audited with a structural predicate.",
@@ -65,14 +66,14 @@ CHECKS = {
         text="encode_ttl, extract_rcode_from_ttl and the version extraction of OPT::parse are evaluated as tables for every "
              "version x response code and every extended-rcode x header nibble against the RFC 6891 layout; the mask constants "
              "are compared with tables/edns.tsv; OPT::parse is shown to read CLASS@+2 as the payload size and TTL@+4; the writers "
-             "emit header.opt_rr() exactly once and ARCOUNT adds opt.is_some(); the parser lifts the OPT record by type.",
+             "emit header.opt_rr() exactly once, after every authority record, and ARCOUNT adds opt.is_some(); the header carries only the low four bits of the response code for every RCODE variant; the option loop of OPT::parse consumes the RDATA to its end; the parser lifts the OPT record by type.",
         note="Trusted: as C08. Does not decide behaviour with several OPT records in the input.",
         ref="DESIGN.md section 4 C09"),
     "C11": dict(
         technique="table composition over the reader's image (exhaustive) + constructor scan of writer bodies",
         text="Decides that the writer is defined and code-preserving on everything the reader can produce: RCODE/OPCODE written "
              "back from every parsed value re-parse to the same value (16 nibbles, 4096 extended codes), the TYPE written for "
-             "whatever the parse dispatch builds is the parsed TYPE for all 65536 codes, and no writer body constructs an error "
+             "whatever the parse dispatch builds is the parsed TYPE for all 65536 codes, and no writer - nor any crate function reached from one - constructs an error "
              "of its own (LOC's version check mirrors the parser's). One genuine defect is recorded as a known finding "
              "(RCODE::Reserved).",
         note="Trusted: as C18. Does not decide field-value equality of parse(write(parse(x))) (value-level); length consistency "
@@ -82,7 +83,7 @@ CHECKS = {
         technique="field-origin analysis on extracted result terms (into_owned) + field-set comparison of Hash/PartialEq bodies + iteration-order taint",
         text="Every into_owned (51 functions and the record-building closures inside them) is linearised and each field / variant "
              "payload of its result is shown to originate in the same field / payload of self, with no constant or fresh origin; "
-             "for types with a hand-written Hash or PartialEq the hashed fields are a subset of the compared fields; no Hash impl "
+             "for types with a hand-written Hash or PartialEq the hashed fields are a subset of the compared fields and whatever equality folds away (case, whitespace) the hash folds away too; no Hash impl "
              "feeds the hasher in HashSet/HashMap iteration order; Clone impls are derived. Structural for all values: an owned "
              "copy is field-for-field the original, hence equal, hence serialises identically.",
         note="Trusted: rustc MIR; std collection Clone/Eq/Hash impls lawful; derive(PartialEq, Hash) use one field list.",
@@ -91,8 +92,8 @@ CHECKS = {
         technique="MIR abstract interpretation: cursor post-condition and symbolic read offsets",
         text="At every Ok return of RData::parse the numeric domain entails cursor_out = cursor_in + 10 + RDLENGTH (RDLENGTH being "
              "the big-endian 16-bit read at +8), the typed parser receives exactly the message prefix ending there, TYPE/CLASS/TTL/"
-             "RDLENGTH and QTYPE/QCLASS are read at their fixed offsets after the name, and parse_section pushes one element per "
-             "iteration of a finite 0..count loop. Decides the framing clause for all messages.",
+             "RDLENGTH and QTYPE/QCLASS are read at their fixed offsets after the name, parse_section pushes one element per "
+             "iteration of a finite 0..count loop, and Packet::parse fills the four sections in wire order from QDCOUNT/ANCOUNT/NSCOUNT/ARCOUNT, touching them afterwards only to lift the OPT record out with an order-preserving removal. Decides the framing clause for all messages.",
         note=TB + " Does not decide equality of decoded field values with a reference decoder.",
         ref="DESIGN.md section 4 C05"),
     "C06": dict(
@@ -100,7 +101,7 @@ CHECKS = {
         text="On <Name as WireFormat>::parse: every pushed label has 1..=63 bytes, the expanded size at the Ok return is <= 254 + "
              "root byte, the loop has the measure (size grows | read cursor strictly decreases) so pointers go strictly backwards "
              "and cycles cannot succeed, every read is in bounds, and the caller cursor equals the read cursor until the first "
-             "pointer, becomes pointer+1 there, is frozen afterwards and is returned +1.",
+             "pointer, becomes pointer+1 there, is frozen afterwards and is returned +1; the pointer arm is entered only with a length byte >= 0xC0, the target is the 16-bit read masked with 0x3FFF, and the size counted against the limit grows by exactly 1 + label length per label.",
         note=TB + " That the label bytes equal a reference decoder's follows from R1-R6 by inspection, not mechanically.",
         ref="DESIGN.md section 4 C06"),
     "C04": dict(
@@ -132,7 +133,7 @@ CHECKS = {
         text="For every WireFormat impl the sequence of wire elements parse consumes equals, item by item (kind, width, byte order, "
              "fixed offsets contiguous, destination field = source field), the sequence write_to emits; the resource-record "
              "envelope is assembled from ResourceRecord::parse and RData::parse; IPSECKEY's tag constants written equal the values "
-             "tested; the cache-flush / unicast-response bit is written with the mask that parse tests and strips. This is the "
+             "tested; the cache-flush / unicast-response bit is written with the mask that parse tests and strips; integer fields keep their identity on both sides (no clamp / mask on one side only); every header the API can assemble (opcode x rcode x flag subsets) is written to a flags word that Header::parse accepts and decodes to the same values. This is the "
              "structural necessary condition of the round trip, for all packets.",
         note=TB + " Does not decide equality of values for all packets (a symmetric mistake is C10's job; SVCB map order, TXT "
              "cached size, empty TXT are value-level). Name is covered by C06/C03, the RData dispatch by C18-R3.",
@@ -151,7 +152,7 @@ CHECKS = {
         technique="call-graph reachability (who may compress) + emit sequences + numeric entailment on the recorded offsets",
         text="From tables/compression.tsv (the property's two lists): the names that must be compressed are routed to "
              "Name::compress_append by their type's write_compressed_to, the types whose RFCs forbid compression never reach it; "
-             "the pointer is `offset | 0xC000` written as one big-endian u16 with offset <= 0x3FFF; the table entry for a suffix "
+             "the pointer is `offset | 0xC000` written as one big-endian u16 with offset <= 0x3FFF; a suffix is left out of the table only when its offset is >= 0x4000 (used where allowed); the table entry for a suffix "
              "is (writer position before the label's first byte, &labels[i..]). One genuine defect (offsets are absolute stream "
              "positions, not message-relative) is recorded as a known finding.",
         note=TB + " A-SEEK. 'Expands to the intended name' beyond the record-before-write clause is not decided.",
@@ -163,24 +164,29 @@ CHECKS = {
              "drawn through it from get_domain_resources(&question.qname, authoritative(true)); additional records come only "
              "from the (A or AAAA) AND class filter over get_domain_resources(&srv.target, authoritative(false)); the reply is "
              "new_reply(query id), the unicast flag is assigned only under question.unicast_response, None iff no answer; trie "
-             "keys carry a per-label delimiter (necessary for label-wise matching).",
+             "keys carry a per-label length prefix (necessary for label-wise matching); registering a record stores it as "
+             "Authoritative unconditionally.",
         note="Does not decide that trie lookup is label-wise equality / subdomain for all stores (value-level); the match "
              "functions themselves are C18-R4. Trusted: rustc MIR, radix_trie's prefix semantics.",
         ref="DESIGN.md section 4 C13"),
     "C15": dict(
         technique="variant-set agreement between sibling functions + decision-table evaluation of the ingest filter closures",
         text="PARTIAL. The RData variants InstanceInformation::into_records (and the conversion helpers it calls) builds are exactly "
-             "those from_records consumes, each arm storing into the matching collection; in both back-ends the filter in front "
-             "of add_cached_resource evaluates to name != own instance AND name.is_subdomain_of(service) for all four outcome "
-             "combinations.",
-        note="Does not decide set / attribute equality across the wire nor the escape / unescape inverse (value-level).",
+             "those from_records consumes, each arm storing into the matching collection; in both back-ends the ingest filter "
+             "evaluates to name != own instance AND name.is_subdomain_of(service) for all four outcome combinations, and every "
+             "record stored or reported flows (through the iterator pipeline, coroutine-saved slots included) out of that filter, "
+             "with no chain / merge met before it.",
+        note="Does not decide set / attribute equality across the wire, which labels form the instance name, nor the escape / "
+             "unescape inverse (value-level; two seeded changes of that kind are documented as not detected).",
         ref="DESIGN.md section 4 C15"),
     "C19": dict(
         technique="cast scan over the reachable functions + numeric entailment at CharacterString constructions + constant / shape rules",
         text="PARTIAL. No char is narrowed to a smaller integer in anything reachable from the TXT conversions (separator clause); "
              "every CharacterString construction outside into_owned is entailed to have data.len() <= 255 (length-limit clause); "
-             "text is chunked with a constant size in 1..=254; String::try_from(TXT) folds over the strings in order appending "
-             "each once (byte-level losslessness of split / join).",
+             "text is chunked with a constant size in 1..=254; String::try_from(TXT) makes one in-order pass over the strings "
+             "appending each once and decodes the concatenation as a whole (byte-level losslessness of split / join); the "
+             "attribute readers split at every ';' (long form) and only at the first '=' and at nothing else; the attribute-map "
+             "writer matches on the Option itself (absent vs empty).",
         note="Does not decide the attribute-map round trip (absent vs empty, first-wins) - value-level. The out-of-crate half of "
              "the construction rule is the pub(crate) privacy of CharacterString::data, enforced by the compiler.",
         ref="DESIGN.md section 4 C19"),
@@ -190,7 +196,8 @@ CHECKS = {
              "Instant::now() (operand order checked); cached() excludes authoritative records and authoritative(_) excludes cached "
              "ones; every record get_domain_resources yields went through that filter and the trie is read nowhere else but "
              "get_next_refresh; add_cached_resource passes ttl 1 under cache_flush else resource.ttl to ExpirationInfo::new, whose "
-             "expire_at is now() + from_secs(ttl), and inserts (replaces) the entry; records are removed only by "
+             "expire_at is now() + from_secs(ttl), on every path (no ExpirationInfo::new outside a cache_flush test), and inserts "
+             "(replaces) the entry; add_authoritative_resource inserts unconditionally; records are removed only by "
              "remove_resource_record / clear.",
         note="Does not decide behaviour over real elapsed time (histories with a wall clock): no static argument bounds that.",
         ref="DESIGN.md section 4 C20"),
@@ -245,7 +252,9 @@ def main():
         "checks": checks,
         "not_applicable": na,
         "notes": "All checks are static: /repo is type-checked by the driver, never executed. Exit 2 = infrastructure error "
-                 "(tree does not compile / driver missing).",
+                 "(tree does not compile / driver missing). Functions that are not in tables/functions.tsv (helpers extracted by a "
+                 "later refactoring) are inlined into their callers before analysis. Tested both ways: seeded/ (73 property-breaking "
+                 "changes, RESULTS.json) and neutral/ (behaviour-preserving refactorings that must stay silent).",
     }
     json.dump(m, open(os.path.join(VERIF, "MANIFEST.json"), "w"), indent=1)
 
